@@ -94,7 +94,7 @@ fn nontrivial_rule(prop: &str) -> &'static str
         "C10" => "profile C10 (histories at driver level) and half of the budget again in profile C10T (signals released and collections requested inside reaction trees) plus shuttle thread schedules; non-trivial = a signal's last clone dropped; distinct = distinct observed trace / schedule outcome",
         "C11" => "profiles C11 and C09P (polled reactions at tree boundaries); non-trivial = 2+ trees on one world with an aborted or postponed delivery; distinct = distinct observed trace",
         "C12" => "profile C12; non-trivial = 2+ sender/target FIFO pairs checked with a postponed delivery; distinct = distinct observed trace",
-        "C13" => "profile C13 (plus a quarter of the budget again in the cross profile C17: state of syscall-family systems); non-trivial = 3+ system runs; distinct = distinct observed trace",
+        "C13" => "profile C13 (plus 40 % of the budget again in the cross profile C17: state of syscall-family systems); non-trivial = 3+ system runs; distinct = distinct observed trace",
         "C14" => "profile C14; non-trivial = a set_if_neq call or an insert on an entity despawned before application; distinct = distinct observed trace",
         "C15" => "profile C15; non-trivial = a one-off reactor fired; distinct = distinct observed trace",
         "C16" => "profile C16; non-trivial = an entity world reactor body ran; distinct = distinct observed trace",
@@ -115,7 +115,7 @@ fn profiles_for(prop: &str) -> Vec<(&'static str, u64)>
     {
         "C01" => vec![("C01", 100), ("C16", 25)], "C02" => vec![("C02", 50), ("C09P", 50), ("C17", 20)], "C03" => vec![("C03", 100)], "C04" => vec![("C04", 100)], "C05" => vec![("C05", 100)],
         "C06" => vec![("C06", 100), ("C16", 25), ("C08", 25)], "C07" => vec![("C07", 100)], "C08" => vec![("C08", 50), ("C08F", 50)], "C09" => vec![("C09", 50), ("C09P", 50)], "C10" => vec![("C10", 100), ("C10T", 50)],
-        "C11" => vec![("C11", 50), ("C09P", 50)], "C12" => vec![("C12", 100)], "C13" => vec![("C13", 100), ("C17", 25)], "C14" => vec![("C14", 100)], "C15" => vec![("C15", 100)], "C16" => vec![("C16", 100)],
+        "C11" => vec![("C11", 50), ("C09P", 50)], "C12" => vec![("C12", 100)], "C13" => vec![("C13", 100), ("C17", 40)], "C14" => vec![("C14", 100)], "C15" => vec![("C15", 100)], "C16" => vec![("C16", 100)],
         "C17" => vec![("C17", 100)], _ => vec![("C18", 100), ("C14", 25), ("C16", 25)],
     }
 }
